@@ -381,11 +381,14 @@ class FetcherEval:
                         marker_at = s + 1
                         b[marker_at] = self.binding(tuple(reps[(marker_at - s) % r]), self.marker())
                     requests: List[Any] = []
-                    kind, val = self.call(self.evaluator(b, requests), meth, [self.me(), list(scalars), list(reps), size])
+                    sc_arg, rp_arg = list(scalars), list(reps)
+                    kind, val = self.call(self.evaluator(b, requests), meth, [self.me(), sc_arg, rp_arg, size])
                     if kind == "uneval":
                         self.uneval["bulkget"] = str(val)
                         return None
                     text = f"bulkget: {s} non-repeater(s), {r} repeater(s), max-repetitions {size}, {m} binding(s) in the response ({variant})"
+                    if sc_arg != scalars or rp_arg != reps:
+                        out.append((False, "bulkget leaves the caller's OID lists as they were (the same list objects describe the same request when they are used again)", f"after the call: scalar_oids = {sc_arg!r}, repeating_oids = {rp_arg!r}"[:240]))
                     if m > bound:
                         out.append((kind == "raise" and self.exc_is(val, self.snmp_error), f"{text} -> refused with SnmpError (bound {bound})", f"{kind}: {val!r}"[:200]))
                         continue
